@@ -16,6 +16,7 @@ EXPLANATION = (
     "count += 1, durations += (root's kernel_dur_sum, root's dur)), of _generate_frequent_pattern_results (rows ordered by count descending), and an interprocedural abstract evaluation "
     "of CallGraph.get_stack_of_node -> CallStackGraph.get_descendants -> get_paths_to_leaves._dfs on a two-node abstract tree (host root, device child) with the arguments actually "
     "passed: the device child must be retained. Correctness of the composed tree is C03/C13."
+    " Later additions: stack columns published after the threads are linked; kernel totals incl. event id 0; unconditional ordering of the result."
 )
 CK = "hta.analyzers.cuda_kernel_analysis"
 CS = "hta.common.trace_call_stack"
